@@ -896,6 +896,185 @@ theorem C08_gen_trace_bits :
     (Gen.C08.traceState.map (·.2)).Nodup ∧ Gen.C08.traceLinear.length = 3 ∧ Gen.C08.traceAffine.length = 7 := by
   decide
 
+
+
+/-! ## Regenerated logic: `get_trace_linear` / `get_trace_affine` transliterated from tracetable.pyx -/
+
+/-- the candidates whose score attains the maximum, in the order `traceDirs` lists them -/
+def candDirs (fd fl ft : Int) : List Dir :=
+  (if fd = max3 fd fl ft then [Dir.diag] else []) ++ (if fl = max3 fd fl ft then [Dir.left] else [])
+    ++ (if ft = max3 fd fl ft then [Dir.top] else [])
+
+def bitL (n : String) : Nat := (Gen.C08.traceLinear.lookup n).getD 0
+def bitA (n : String) : Nat := (Gen.C08.traceAffine.lookup n).getD 0
+
+def dirBit : Dir → Nat
+  | .diag => bitL "MATCH"
+  | .left => bitL "GAP_LEFT"
+  | .top => bitL "GAP_TOP"
+
+/-- the interior case of the model's `traceDirs` is `candDirs` (below the local floor) -/
+theorem traceDirs_interior (mode : Mode) (M : Mat) (g : Int) (a b : Seq) (V : Nat → Nat → Int) (i j : Nat) :
+    traceDirs mode M g a b V (i + 1, j + 1) =
+      if mode = .local ∧ max3 (V i j + sub M a b i j)
+          (V (i + 1) j + (if mode = .semi ∧ i + 1 = a.length then 0 else g))
+          (V i (j + 1) + (if mode = .semi ∧ j + 1 = b.length then 0 else g)) ≤ 0 then []
+      else candDirs (V i j + sub M a b i j) (V (i + 1) j + (if mode = .semi ∧ i + 1 = a.length then 0 else g))
+          (V i (j + 1) + (if mode = .semi ∧ j + 1 = b.length then 0 else g)) := rfl
+
+/-- `get_trace_linear` as it stands in tracetable.pyx (regenerated `Gen.C08.getTraceLinear`), for ALL scores: the
+maximum it writes is `max3` and the bits it sets are exactly the bits of the candidates that attain the maximum —
+what `traceDirs` / `linRec` assume. -/
+theorem C08_gen_get_trace_linear (fd fl ft : Int) :
+    Gen.C08.getTraceLinear fd fl ft = (((candDirs fd fl ft).map dirBit).sum, max3 fd fl ft) := by
+  have e1 : bitL "MATCH" = 1 := by decide
+  have e2 : bitL "GAP_LEFT" = 2 := by decide
+  have e3 : bitL "GAP_TOP" = 4 := by decide
+  unfold Gen.C08.getTraceLinear candDirs max3
+  repeat' split
+  all_goals simp only [List.map_append, List.map_cons, List.map_nil, List.sum_append, List.sum_cons, List.sum_nil,
+    dirBit, e1, e2, e3, List.nil_append, List.append_nil, Prod.mk.injEq]
+  all_goals omega
+
+/-- `get_trace_affine` (regenerated, three decision trees): each table's maximum is the maximum of its candidates
+and exactly the transitions attaining it get their bit — what `affRec` (`omax`) and `nextAff` (`pickCands`) assume. -/
+theorem C08_gen_get_trace_affine (mm g1m g2m mg1 g1g1 mg2 g2g2 : Int) :
+    Gen.C08.getTraceAffineM mm g1m g2m mg1 g1g1 mg2 g2g2 =
+      ((if mm = max3 mm g1m g2m then bitA "MATCH_TO_MATCH" else 0) + (if g1m = max3 mm g1m g2m then bitA "GAP_LEFT_TO_MATCH" else 0)
+        + (if g2m = max3 mm g1m g2m then bitA "GAP_TOP_TO_MATCH" else 0), max3 mm g1m g2m) ∧
+    Gen.C08.getTraceAffineG1 mm g1m g2m mg1 g1g1 mg2 g2g2 =
+      ((if mg1 = max mg1 g1g1 then bitA "MATCH_TO_GAP_LEFT" else 0) + (if g1g1 = max mg1 g1g1 then bitA "GAP_LEFT_TO_GAP_LEFT" else 0),
+        max mg1 g1g1) ∧
+    Gen.C08.getTraceAffineG2 mm g1m g2m mg1 g1g1 mg2 g2g2 =
+      ((if mg2 = max mg2 g2g2 then bitA "MATCH_TO_GAP_TOP" else 0) + (if g2g2 = max mg2 g2g2 then bitA "GAP_TOP_TO_GAP_TOP" else 0),
+        max mg2 g2g2) ∧
+    Gen.C08.getTraceAffineTargets = ["max_match_score[0]", "max_gap_left_score[0]", "max_gap_top_score[0]"] := by
+  have b1 : bitA "MATCH_TO_MATCH" = 1 := by decide
+  have b2 : bitA "GAP_LEFT_TO_MATCH" = 2 := by decide
+  have b3 : bitA "GAP_TOP_TO_MATCH" = 4 := by decide
+  have b4 : bitA "MATCH_TO_GAP_LEFT" = 8 := by decide
+  have b5 : bitA "GAP_LEFT_TO_GAP_LEFT" = 16 := by decide
+  have b6 : bitA "MATCH_TO_GAP_TOP" = 32 := by decide
+  have b7 : bitA "GAP_TOP_TO_GAP_TOP" = 64 := by decide
+  refine ⟨?_, ?_, ?_, rfl⟩
+  · have hm : max3 mm g1m g2m ≥ mm ∧ max3 mm g1m g2m ≥ g1m ∧ max3 mm g1m g2m ≥ g2m ∧
+        (max3 mm g1m g2m = mm ∨ max3 mm g1m g2m = g1m ∨ max3 mm g1m g2m = g2m) := by unfold max3; omega
+    generalize max3 mm g1m g2m = mx at hm ⊢
+    unfold Gen.C08.getTraceAffineM
+    repeat' split
+    all_goals simp only [b1, b2, b3, Prod.mk.injEq]
+    all_goals first | omega | exact ⟨trivial, by omega⟩ | (exfalso; omega)
+  · have hm : max mg1 g1g1 ≥ mg1 ∧ max mg1 g1g1 ≥ g1g1 ∧ (max mg1 g1g1 = mg1 ∨ max mg1 g1g1 = g1g1) := by omega
+    generalize max mg1 g1g1 = mx at hm ⊢
+    unfold Gen.C08.getTraceAffineG1
+    repeat' split
+    all_goals simp only [b4, b5, Prod.mk.injEq]
+    all_goals first | omega | exact ⟨trivial, by omega⟩ | (exfalso; omega)
+  · have hm : max mg2 g2g2 ≥ mg2 ∧ max mg2 g2g2 ≥ g2g2 ∧ (max mg2 g2g2 = mg2 ∨ max mg2 g2g2 = g2g2) := by omega
+    generalize max mg2 g2g2 = mx at hm ⊢
+    unfold Gen.C08.getTraceAffineG2
+    repeat' split
+    all_goals simp only [b6, b7, Prod.mk.injEq]
+    all_goals first | omega | exact ⟨trivial, by omega⟩ | (exfalso; omega)
+
+/-- the order in which `follow_trace` examines the bits is the order of the model's direction / candidate lists,
+and the predecessor index names are those of the plain (non-banded) assignment `i-1, i, i-1 / j-1, j-1, j`. -/
+theorem C08_gen_follow_order :
+    Gen.C08.followLinDirs.map (·.1) = ["MATCH", "GAP_LEFT", "GAP_TOP"] ∧
+    (candDirs 0 0 0) = [Dir.diag, Dir.left, Dir.top] ∧
+    Gen.C08.followAffDirs.map (fun x => (x.1, x.2.2.2)) =
+      [("MATCH_TO_MATCH", "MATCH_STATE"), ("GAP_LEFT_TO_MATCH", "GAP_LEFT_STATE"), ("GAP_TOP_TO_MATCH", "GAP_TOP_STATE"),
+       ("MATCH_TO_GAP_LEFT", "MATCH_STATE"), ("GAP_LEFT_TO_GAP_LEFT", "GAP_LEFT_STATE"),
+       ("MATCH_TO_GAP_TOP", "MATCH_STATE"), ("GAP_TOP_TO_GAP_TOP", "GAP_TOP_STATE")] ∧
+    (Gen.C08.followPred.drop 2).take 2 = ["i_match, i_gap_left, i_gap_top = i-1, i, i-1",
+                                            "j_match, j_gap_left, j_gap_top = j-1, j-1, j"] := by
+  refine ⟨rfl, by decide, rfl, rfl⟩
+
+
+/-! ## Regenerated facts of the source (pass 7): every literal / structural fact the hand-written model relies on.
+A change of any of these lines in /repo breaks the corresponding obligation for every input at once. -/
+
+/-- Default argument values of the public functions (the `defaults` oracle stream and the docs assume exactly these). -/
+theorem C08_gen_defaults :
+    Gen.C08.defaultsAlignOptimal = [("gap_penalty", "-10"), ("terminal_penalty", "True"), ("local", "False"), ("max_number", "1000")] ∧
+    Gen.C08.defaultsAlignUngapped = [("score_only", "False")] ∧
+    Gen.C08.defaultsScore = [("gap_penalty", "-10"), ("terminal_penalty", "True")] := by
+  refine ⟨rfl, rfl, rfl⟩
+
+/-- Argument checks of `align_optimal`: conditions, comparison operators, exception classes and their ORDER (alphabets, gap sign `> 0`, type, `max_number < 1`) — what `argCheck` / `C08_args_rejects` model; linear vs affine is decided by `type(...) == int / tuple`. -/
+theorem C08_gen_arg_checks :
+    Gen.C08.argChecks = [("not matrix.get_alphabet1().extends(seq1.get_alphabet()) or not matrix.get_alphabet2().extends(seq2.get_alphabet())", "ValueError"), ("gap_penalty > 0", "ValueError"), ("gap_penalty[0] > 0 or gap_penalty[1] > 0", "ValueError"), ("else", "TypeError"), ("max_number < 1", "ValueError")] ∧
+    Gen.C08.gapKindTests = ["if type(gap_penalty) == int:", "elif type(gap_penalty) == tuple:"] := by
+  refine ⟨rfl, rfl⟩
+
+/-- Table allocation (shape `(len+1) × (len+1)`, int32 scores, uint8 trace), the pseudo −∞, and the first row / column initialisation that `linRec.border` / `affRec.border` and the border cases of `traceDirs` / `nextAff` mirror. -/
+theorem C08_gen_tables :
+    Gen.C08.alloc = ["trace_table = np.zeros(( len(seq1)+1, len(seq2)+1 ), dtype=np.uint8)", "m_table = np.zeros((len(seq1)+1, len(seq2)+1), dtype=np.int32)", "g1_table = np.full((len(seq1)+1, len(seq2)+1), neg_inf, dtype=np.int32)", "g2_table = np.full((len(seq1)+1, len(seq2)+1), neg_inf, dtype=np.int32)", "score_table = np.zeros(( len(seq1)+1, len(seq2)+1 ), dtype=np.int32)"] ∧
+    Gen.C08.negInf = ["neg_inf = np.iinfo(np.int32).min - gap_open - gap_ext", "neg_inf -= min_score", "min_score = np.min(matrix.score_matrix())", "if min_score < 0:"] ∧
+    Gen.C08.tableInit = ["m_table [0, 1:] = neg_inf", "m_table [1:, 0] = neg_inf", "g1_table[0, 1:] = (np.arange(len(seq2)) * gap_ext) + gap_open", "g2_table[1:, 0] = (np.arange(len(seq1)) * gap_ext) + gap_open", "g1_table[0, 1:] = np.zeros(len(seq2))", "g2_table[1:, 0] = np.zeros(len(seq1))", "trace_table[0, 1] = TraceDirectionAffine.MATCH_TO_GAP_LEFT", "trace_table[0, 2:] = TraceDirectionAffine.GAP_LEFT_TO_GAP_LEFT", "trace_table[1, 0] = TraceDirectionAffine.MATCH_TO_GAP_TOP", "trace_table[2: ,0] = TraceDirectionAffine.GAP_TOP_TO_GAP_TOP", "g1_table[0, 1:] = np.zeros(len(seq2))", "g2_table[1:, 0] = np.zeros(len(seq1))", "score_table[:,0] = np.arange(len(seq1)+1) * gap_penalty", "score_table[0,:] = np.arange(len(seq2)+1) * gap_penalty", "trace_table[1:,0] = TraceDirectionLinear.GAP_TOP", "trace_table[0,1:] = TraceDirectionLinear.GAP_LEFT", "g1_table[i_start,j_start],", "g2_table[i_start,j_start])"] := by
+  refine ⟨rfl, rfl, rfl⟩
+
+/-- `_fill_align_table`: loop domains `1 .. shape`, the three candidates with their table offsets (diag = (−1,−1), left = (0,−1), top = (−1,0): the argument order of `Rec.cell`), the free-terminal-gap conditions `i == i_max` / `j == j_max`, `local ⇒ term_penalty`, the local floor `score <= 0`. -/
+theorem C08_gen_fill_lin :
+    Gen.C08.fillLinLoops = [("i", "1", "score_table", "0"), ("j", "1", "score_table", "1")] ∧
+    Gen.C08.fillLinMax = ["i_max = score_table.shape[0] -1", "j_max = score_table.shape[1] -1"] ∧
+    Gen.C08.fillLinCands = [("from_diag", "score_table", (-1), (-1), "matrix[code1[i-1], code2[j-1]]", ""), ("from_left", "score_table", 0, (-1), "", "not term_penalty and i == i_max"), ("from_left", "score_table", 0, (-1), "gap_penalty", "else"), ("from_top", "score_table", (-1), 0, "", "not term_penalty and j == j_max"), ("from_top", "score_table", (-1), 0, "gap_penalty", "else")] ∧
+    Gen.C08.fillLinFloor = ["if local:", "term_penalty = True", "if local == True and score <= 0:", "continue"] ∧
+    Gen.C08.fillLinStore = ["trace = get_trace_linear(from_diag, from_left, from_top, &score)", "score_table[i,j] = score", "trace_table[i,j] = trace"] := by
+  refine ⟨rfl, rfl, rfl, rfl, rfl⟩
+
+/-- `_fill_align_table_affine`: the seven transitions with table, offsets and penalty (open from the match table, ext from the gap table, none when the terminal gap is free), the three local floors `<= 0` and the trace bits they clear. -/
+theorem C08_gen_fill_aff :
+    Gen.C08.fillAffLoops = [("i", "1", "trace_table", "0"), ("j", "1", "trace_table", "1")] ∧
+    Gen.C08.fillAffMax = ["i_max = trace_table.shape[0] -1", "j_max = trace_table.shape[1] -1"] ∧
+    Gen.C08.fillAffCands = [("mm_score", "m_table", (-1), (-1), "similarity_score", ""), ("g1m_score", "g1_table", (-1), (-1), "similarity_score", ""), ("g2m_score", "g2_table", (-1), (-1), "similarity_score", ""), ("mg1_score", "m_table", 0, (-1), "", "not term_penalty and i == i_max"), ("g1g1_score", "g1_table", 0, (-1), "", "not term_penalty and i == i_max"), ("mg1_score", "m_table", 0, (-1), "gap_open", "else"), ("g1g1_score", "g1_table", 0, (-1), "gap_ext", "else"), ("mg2_score", "m_table", (-1), 0, "", "not term_penalty and j == j_max"), ("g2g2_score", "g2_table", (-1), 0, "", "not term_penalty and j == j_max"), ("mg2_score", "m_table", (-1), 0, "gap_open", "else"), ("g2g2_score", "g2_table", (-1), 0, "gap_ext", "else")] ∧
+    Gen.C08.fillAffSim = ["similarity_score = matrix[code1[i-1], code2[j-1]]"] ∧
+    Gen.C08.fillAffFloors = [("m_score", "<=", "0", ["MATCH_TO_MATCH", "GAP_LEFT_TO_MATCH", "GAP_TOP_TO_MATCH"]), ("g1_score", "<=", "0", ["MATCH_TO_GAP_LEFT", "GAP_LEFT_TO_GAP_LEFT"]), ("g2_score", "<=", "0", ["MATCH_TO_GAP_TOP", "GAP_TOP_TO_GAP_TOP"])] ∧
+    Gen.C08.fillAffStore = ["mm_score, g1m_score, g2m_score,", "mg1_score, g1g1_score,", "mg2_score, g2g2_score,", "&m_score, &g1_score, &g2_score", "m_table[i,j] = m_score", "g1_table[i,j] = g1_score", "g2_table[i,j] = g2_score", "m_table[i,j] = m_score", "g1_table[i,j] = g1_score", "g2_table[i,j] = g2_score", "trace_table[i,j] = trace"] := by
+  refine ⟨rfl, rfl, rfl, rfl, rfl, rfl⟩
+
+/-- Start selection and traceback bookkeeping: local = every cell with the table maximum (state 1 for affine), otherwise the last cell, affine states examined in the order M, G1, G2 with `== max_score`; counter starts at 1; `trace_list[:max_number]` (what `localStarts`, `startsAff`, `tracesLin/Aff` model). -/
+theorem C08_gen_starts :
+    Gen.C08.startSelection = ["state_list = np.zeros(0, dtype=int)", "max_score = np.max(m_table)", "i_list, j_list = np.where((m_table == max_score))", "state_list = np.append(state_list, np.full(len(i_list), 1))", "max_score = np.max(score_table)", "i_list, j_list = np.where((score_table == max_score))", "state_list = np.zeros(len(i_list), dtype=int)", "i_start = trace_table.shape[0] -1", "j_start = trace_table.shape[1] -1", "max_score = max(m_table[i_start,j_start],", "if m_table[i_start,j_start] == max_score:", "state_list = np.append(state_list, 1)", "if g1_table[i_start,j_start] == max_score:", "state_list = np.append(state_list, 2)", "if g2_table[i_start,j_start] == max_score:", "state_list = np.append(state_list, 3)", "state_list = np.append(state_list, 0)", "max_score = score_table[i_start,j_start]", "i_start = i_list[k]", "j_start = j_list[k]"] ∧
+    Gen.C08.tracebackCalls = ["trace = np.full(( i_start+1 + j_start+1, 2 ), -1, dtype=np.int64)", "curr_trace_count = 1", "trace_table, False, i_start, j_start, 0, trace, trace_list,", "state=state_start, curr_trace_count=&curr_trace_count,", "max_trace_count=max_number,", "trace_list = trace_list[:max_number]"] := by
+  refine ⟨rfl, rfl⟩
+
+/-- `follow_trace`: predecessor cells, the ORDER in which trace bits are examined (linear MATCH, GAP_LEFT, GAP_TOP = `traceDirs` order; affine transitions = `nextAff` candidate order), first alternative continues, the others branch while `curr_trace_count[0] < max_trace_count`, bits examined per state. -/
+theorem C08_gen_follow_trace :
+    Gen.C08.followPred = ["i_match, i_gap_left, i_gap_top = i-1, i, i-1", "j_match, j_gap_left, j_gap_top = j , j-1, j+1", "i_match, i_gap_left, i_gap_top = i-1, i, i-1", "j_match, j_gap_left, j_gap_top = j-1, j-1, j", "i_match, i_gap_left, i_gap_top = i-1, i, i-1", "j_match, j_gap_left, j_gap_top = j , j-1, j+1", "i_match, i_gap_left, i_gap_top = i-1, i, i-1", "j_match, j_gap_left, j_gap_top = j-1, j-1, j"] ∧
+    Gen.C08.followSeqIdx = ["seq_i = i - 1", "seq_j = j + seq_i + lower_diag - 1", "seq_i = i - 1", "seq_j = j - 1", "seq_i = i - 1", "seq_j = j + seq_i + lower_diag - 1", "seq_i = i - 1", "seq_j = j - 1"] ∧
+    Gen.C08.followLinDirs = [("MATCH", "i_match", "j_match"), ("GAP_LEFT", "i_gap_left", "j_gap_left"), ("GAP_TOP", "i_gap_top", "j_gap_top")] ∧
+    Gen.C08.followAffDirs = [("MATCH_TO_MATCH", "i_match", "j_match", "MATCH_STATE"), ("GAP_LEFT_TO_MATCH", "i_match", "j_match", "GAP_LEFT_STATE"), ("GAP_TOP_TO_MATCH", "i_match", "j_match", "GAP_TOP_STATE"), ("MATCH_TO_GAP_LEFT", "i_gap_left", "j_gap_left", "MATCH_STATE"), ("GAP_LEFT_TO_GAP_LEFT", "i_gap_left", "j_gap_left", "GAP_LEFT_STATE"), ("MATCH_TO_GAP_TOP", "i_gap_top", "j_gap_top", "MATCH_STATE"), ("GAP_TOP_TO_GAP_TOP", "i_gap_top", "j_gap_top", "GAP_TOP_STATE")] ∧
+    Gen.C08.followBranch = ["while trace_table[i,j] != 0:", "trace[pos, 0] = seq_i", "trace[pos, 1] = seq_j", "pos += 1", "for k in range(1, len(next_indices)):", "if curr_trace_count[0] < max_trace_count:", "curr_trace_count[0] += 1", "new_i, new_j = next_indices[k]", "i, j = next_indices[0]", "trace[pos, 0] = seq_i", "trace[pos, 1] = seq_j", "pos += 1", "for k in range(1, len(next_indices)):", "if curr_trace_count[0] < max_trace_count:", "curr_trace_count[0] += 1", "new_i, new_j = next_indices[k]", "new_state = next_states[k]", "i, j = next_indices[0]", "state = next_states[0]"] ∧
+    Gen.C08.followStateMasks = [["MATCH_TO_MATCH", "GAP_LEFT_TO_MATCH", "GAP_TOP_TO_MATCH"], ["MATCH_TO_GAP_LEFT", "GAP_LEFT_TO_GAP_LEFT"], ["MATCH_TO_GAP_TOP", "GAP_TOP_TO_GAP_TOP"]] := by
+  refine ⟨rfl, rfl, rfl, rfl, rfl, rfl⟩
+
+/-- `align.score`, `find_terminal_gaps`, `get_codes` (what `scorePub` mirrors statement by statement): pairs counted when both codes `!= -1`, first gap of a run costs `gap_open`, further ones `gap_ext`, slice `max(firsts) .. min(lasts)+1`. -/
+theorem C08_gen_score :
+    Gen.C08.scoreIfs = ["isinstance(gap_penalty, numbers.Real)", "isinstance(gap_penalty, Sequence)", "terminal_penalty", "seq_code[i] == -1", "code_i != -1 and code_j != -1", "in_gap"] ∧
+    Gen.C08.scoreAugAssign = [("score", "Add", "matrix[code_i, code_j]"), ("score", "Add", "gap_ext"), ("score", "Add", "gap_open")] ∧
+    Gen.C08.scoreAssign = ["gap_open = gap_penalty", "gap_ext = gap_penalty", "in_gap = False", "gap_open = gap_penalty[0]", "gap_ext = gap_penalty[1]", "start_index = 0", "stop_index = len(seq_code)", "in_gap = True", "in_gap = False", "start_index, stop_index = find_terminal_gaps(alignment)"] ∧
+    Gen.C08.scoreRaises = ["TypeError"] ∧
+    Gen.C08.ftgReturn = ["(np.max(firsts).item(), np.min(lasts).item() + 1)"] ∧
+    Gen.C08.ftgAssign = ["trace = alignment.trace", "no_gap_pos = [np.where(trace[:, i] != -1)[0] for i in range(trace.shape[1])]", "firsts = [pos[0] if len(pos) > 0 else trace.shape[0] for pos in no_gap_pos]", "lasts = [pos[-1] if len(pos) > 0 else -1 for pos in no_gap_pos]"] ∧
+    Gen.C08.getCodesAssign = ["trace = alignment.trace", "sequences = alignment.sequences", "codes = np.zeros((trace.shape[1], trace.shape[0]), dtype=np.int64)", "no_gap = trace[:, i] != -1", "codes[i] = np.int64(-1)", "codes[i, no_gap] = sequences[i].code[trace[no_gap, i]]"] := by
+  refine ⟨rfl, rfl, rfl, rfl, rfl, rfl, rfl⟩
+
+/-- `SubstitutionMatrix`: int32 conversion, rejection of int32 min / max entries, dictionary fill over ALL ordered symbol pairs (no symmetry assumption), `dict_from_str` orientation. -/
+theorem C08_gen_matrix :
+    Gen.C08.matrixInitTests = ["isinstance(score_matrix, dict)", "isinstance(score_matrix, np.ndarray)", "score_matrix.shape != alph_shape", "not np.issubdtype(score_matrix.dtype, np.integer)", "np.any(self._matrix == np.iinfo(np.int32).max) or np.any(self._matrix == np.iinfo(np.int32).min)", "isinstance(score_matrix, str)"] ∧
+    Gen.C08.matrixInitRaises = ["ValueError", "TypeError", "ValueError", "TypeError"] ∧
+    Gen.C08.matrixAstype = ["self._matrix = score_matrix.astype(np.int32)"] ∧
+    Gen.C08.matrixFillDict = ["self._matrix = np.zeros((len(self._alph1), len(self._alph2)), dtype=np.int32)", "for i in range(len(self._alph1)):
+    for j in range(len(self._alph2)):
+        sym1 = self._alph1.decode(i)
+        sym2 = self._alph2.decode(j)
+        self._matrix[i, j] = int(matrix_dict[sym1, sym2])"] ∧
+    Gen.C08.matrixDictFromStr = ["lines = [line.strip() for line in string.split('\\n')]", "lines = [line for line in lines if len(line) != 0 and line[0] != '#']", "symbols1 = [line.split()[0] for line in lines[1:]]", "symbols2 = [e for e in lines[0].split()]", "scores = np.array([line.split()[1:] for line in lines[1:]]).astype(int)", "matrix_dict = {}", "for i in range(len(symbols1)):
+    for j in range(len(symbols2)):
+        matrix_dict[symbols1[i], symbols2[j]] = scores[i, j]", "return matrix_dict"] := by
+  refine ⟨rfl, rfl, rfl, rfl, rfl⟩
+
 /-! ## Non-vacuity -/
 
 /-- `A C` / `- C` : a valid global alignment; the hypotheses of the upper bounds are satisfiable. -/
